@@ -63,7 +63,7 @@ def repo_env(extra=None):
     return env
 
 
-PYFLAGS = [["-bb"], ["-W", "error"], ["-X", "dev"], ["-O"], ["-OO"], ["-u"], ["-X", "utf8"], ["-s"], ["-W", "error", "-bb", "-X", "dev"], ["-q"], ["-X", "importtime"][:0] + ["-R"]]
+PYFLAGS = [["-S"], ["-bb"], ["-W", "error"], ["-X", "dev"], ["-O"], ["-OO"], ["-u"], ["-X", "utf8"], ["-s"], ["-W", "error", "-bb", "-X", "dev"], ["-q"], ["-X", "importtime"][:0] + ["-R"]]
 
 
 def run_driver(script, jobs, out_dir, py=None, env=None, timeout=3600, name="drv"):
